@@ -2085,7 +2085,13 @@ fn gen_case(r: &mut Rng, mode: u64, profile: u64) -> Vec<u128> {
                 push(&mut v, [1, r.below(ncalls + 1), r.range(0, 3), 0, 0]);
             }
         } else if x < 78 + p_drop {
-            push(&mut v, [2, r.below(ncalls + 1), 0, 0, 0]);
+            // (C19 profile) half of the dropped futures belong to calls that are suspended at a gate
+            if profile == 1 && !held.is_empty() && r.chance(1, 2) {
+                let i = r.below(held.len() as u64) as usize;
+                push(&mut v, [2, held[i].0, 0, 0, 0]);
+            } else {
+                push(&mut v, [2, r.below(ncalls + 1), 0, 0, 0]);
+            }
         } else if x < 78 + p_drop + p_cut && !cut_done && k > 2 {
             cut_done = true;
             push(&mut v, [3, 0, 0, 0, 0]);
@@ -2282,6 +2288,70 @@ pub fn gen(r: &mut Rng, i: usize) -> Vec<Vec<u128>> {
     vec![gen_case(r, mode, 0)]
 }
 
+/// "The caller of a by-value method goes away": the consuming server flavour (trait with `self` methods, one
+/// client); a few `&self` / `&mut self` calls, then a by-value call (cancellable or no_cancel, any attribute
+/// layout) that is queued behind a suspended call and / or suspended itself before or after its effect; its
+/// caller drops the call future, loses the connection, or stays; then the gates open.  A cancellable by-value
+/// method is abandoned like any other (and `serve()` returns), a no_cancel one runs to completion.
+fn gen_consume(r: &mut Rng, mode: u64) -> Vec<u128> {
+    let pol = *r.pick(&[0u64, 0, 1, 2]);
+    let cmode = if r.chance(1, 4) { 2 } else { r.below(2) };
+    let defer = if mode == 1 && r.chance(2, 3) { r.next() | 1 } else { 0 };
+    let mut v: Vec<u128> = vec![mode as u128, 0, 0, pol as u128, 1, cmode as u128, defer as u128, 0];
+    let push = |v: &mut Vec<u128>, o: [u64; 5]| v.extend(o.iter().map(|x| *x as u128));
+    let frames = |r: &mut Rng, v: &mut Vec<u128>| {
+        if mode == 1 {
+            for _ in 0..r.range(0, 3) {
+                v.extend([5u128, r.below(2) as u128, r.range(1, 4) as u128, 0, 0]);
+            }
+        }
+    };
+    let mut ncalls = 0u64;
+    for _ in 0..r.range(0, 3) {
+        push(&mut v, [0, 0, *r.pick(&[0u64, 1, 2, 3]) + 8 * r.below(4), r.below(20), 0]);
+        ncalls += 1;
+        frames(r, &mut v);
+    }
+    // optionally a suspended `&self` call whose future is dropped (the client is free again), so that the
+    // by-value request is queued behind an executing method
+    let blocker = if r.chance(1, 3) {
+        push(&mut v, [0, 0, 1 + 8 * r.below(4), r.below(20), 1]);
+        push(&mut v, [2, ncalls, 0, 0, 0]);
+        ncalls += 1;
+        frames(r, &mut v);
+        Some(ncalls - 1)
+    } else {
+        None
+    };
+    let hold = *r.pick(&[0u64, 1, 1, 2, 3]);
+    let val = ncalls;
+    push(&mut v, [0, 0, *r.pick(&[4u64, 4, 4, 5]) + 8 * r.below(4), r.below(20), hold]);
+    frames(r, &mut v);
+    match r.below(6) {
+        0 | 1 | 2 => push(&mut v, [2, val, 0, 0, 0]),
+        3 => push(&mut v, [3, 0, 0, 0, 0]),
+        4 => push(&mut v, [7, 0, 0, 0, 0]),
+        _ => {}
+    }
+    frames(r, &mut v);
+    if let Some(b) = blocker {
+        if r.chance(3, 4) {
+            push(&mut v, [1, b, 1, 0, 0]);
+            frames(r, &mut v);
+        }
+    }
+    for g in [1u64, 2] {
+        if hold & g != 0 && r.chance(3, 4) {
+            push(&mut v, [1, val, g, 0, 0]);
+            frames(r, &mut v);
+        }
+    }
+    if r.chance(1, 2) {
+        push(&mut v, [0, 0, r.below(6), r.below(20), 0]);
+    }
+    v
+}
+
 pub fn gen_cancel(r: &mut Rng, i: usize) -> Vec<Vec<u128>> {
     if i % 24 == 23 {
         return vec![gen_known(r, 1 + (i / 24 % 2) as u64)];
@@ -2292,6 +2362,9 @@ pub fn gen_cancel(r: &mut Rng, i: usize) -> Vec<Vec<u128>> {
     }
     if i % 24 == 11 {
         return vec![gen_limit(r, mode)];
+    }
+    if i % 24 == 19 {
+        return vec![gen_consume(r, mode)];
     }
     vec![gen_case(r, mode, 1)]
 }
